@@ -1,6 +1,12 @@
 /-
 Line-protocol handler for JIT code generation: `jitgen <w> <limited 0/1> <safe 0/1> <bytecode...>` replies
 with the machine code in hex (runtime-shim addresses as zero), or `panic` where the Rust hits `unimplemented!`.
+
+The harness prints the Rust machine code after `mask_mc`, which zeroes the 8 immediate bytes of every
+`48 b8 <imm64> ff d0` (`mov rax, imm64; call rax`). In the harness process the shim addresses do not fit
+32 bits, so `emit_mov_r64_i64` takes its 10-byte form there; `JitGen.compile` with address 0 would take
+the 6-byte `c7 c0 <imm32>` form. The handler therefore compiles with a shim address beyond 32 bits
+(`shimAddr`) and applies the same `maskMc` as the harness.
 -/
 import Hpbf.Driver4
 import Hpbf.JitGen
@@ -8,8 +14,44 @@ import Hpbf.JitGen
 namespace Hpbf
 namespace Driver5
 
+/-- Address passed for the three runtime shims (any value above `u32::MAX` gives the same reply). -/
+def shimAddr : Nat := 0x555555554000
+
+/-- Port of the harness's `mask_mc`. -/
+def maskMc (mc : Array UInt8) : Array UInt8 := Id.run do
+  let mut mc := mc
+  let mut i := 0
+  for _ in [0:mc.size] do
+    if i + 12 ≤ mc.size then
+      if mc[i]! == 0x48 && mc[i + 1]! == 0xb8 && mc[i + 10]! == 0xff && mc[i + 11]! == 0xd0 then
+        for j in [i + 2:i + 10] do
+          mc := mc.set! j 0
+        i := i + 12
+      else
+        i := i + 1
+  return mc
+
+def hexOf (bs : Array UInt8) : String :=
+  if bs.isEmpty then "-" else String.join (bs.toList.map Driver.hexByte)
+
+def jitgen (ws ls ss : String) (bc : List String) : Option String := do
+  let w ← ws.toNat?
+  if !(w == 8 || w == 16 || w == 32 || w == 64) then none
+  if bc.isEmpty then none
+  let limited := ls == "1"
+  let safe := ss == "1"
+  let p ← Driver3.decodeBc w bc
+  if p.live.any (· ≥ 65536) then none     -- `live` is a `u16` in the Rust decoder
+  match JitGen.compile w p limited safe shimAddr shimAddr shimAddr with
+  | some mc => some (hexOf (maskMc mc.toArray))
+  | none => some "panic"
+
 def handle (line : String) : String :=
-  Driver4.handle line
+  let toks := (line.splitOn " ").filter (· ≠ "")
+  match toks with
+  | "jitgen" :: ws :: ls :: ss :: bc => (jitgen ws ls ss bc).getD "bad-request"
+  | "jitgen" :: _ => "bad-request"
+  | _ => Driver4.handle line
 
 end Driver5
 end Hpbf
